@@ -581,6 +581,39 @@ pub fn compose(depth: usize) -> Vec<Rel> {
                     }
                 }
             }
+            // set operations whose two arms reach their aggregation / projection at different depths:
+            // r OP (SELECT <same columns> FROM (r2)) and the mirror image
+            let arms: Vec<&Rel> = l1u.iter().filter(|r| starts_with_any(&r.term, &["A3(", "P2(", "D1(", "P11(", "A1("])).collect();
+            for r2 in &arms {
+                let names = r2.cols.iter().map(|c| c.name.clone()).collect::<Vec<_>>().join(", ");
+                for r in &arms {
+                    let compatible = r.cols.len() == r2.cols.len() && r.cols.iter().zip(r2.cols.iter()).all(|(x, y)| x.kind == y.kind && x.name == y.name);
+                    if !compatible {
+                        continue;
+                    }
+                    for (op, tag) in [("UNION", "union"), ("UNION ALL", "unionall"), ("INTERSECT", "intersect"), ("EXCEPT", "except")] {
+                        // the second arm reads its relation through a CTE and one more projection
+                        all.push(derived(
+                            format!("S.{tag}({}, P1c({}))", r.term, r2.term),
+                            format!("WITH c1 AS ({}) {} {op} SELECT {names} FROM c1", r2.sql, r.sql),
+                            r.cols.clone(),
+                            &[r, r2],
+                            vec!["setop", tag, "arm-through-cte"],
+                            true,
+                            false,
+                        ));
+                        all.push(derived(
+                            format!("S.{tag}(P1c({}), {})", r2.term, r.term),
+                            format!("WITH c1 AS ({}) SELECT {names} FROM c1 {op} {}", r2.sql, r.sql),
+                            r.cols.clone(),
+                            &[r2, r],
+                            vec!["setop", tag, "arm-through-cte"],
+                            true,
+                            false,
+                        ));
+                    }
+                }
+            }
             // set operations as sources
             for sop in l2_joins.iter().filter(|b| b.term.starts_with("S.")) {
                 if sop.term.contains("(P11(") {
